@@ -289,6 +289,28 @@ class FnIntervals:
             name = c["fn"]
             res = c.get("res", name)
             a = t[2]
+            if name in ("core::result::Result::<T, E>::map", "core::option::Option::<T>::map") and len(a) == 2 and self.prog is not None:
+                # `read_bits(2).map(|v| v + 1)`: evaluate the closure body on the payload's interval
+                v_in = self.op(a[0])
+                cl = op_local(a[1])
+                g = None
+                for dd in (self.defs.of(cl) if cl is not None else []):
+                    if dd[2] == "assign" and dd[3][2][0] == "agg" and dd[3][2][1][0] == "closure":
+                        g = self.prog.fn(dd[3][2][1][1]) or self.prog.crate(fn.crate).fns.get(dd[3][2][1][1])
+                if v_in is not None and g is not None and g.argc == 2 and len(g.blocks) <= 12 and not (g.captures or []):
+                    child = FnIntervals(g, self.fields, self.prog)
+                    child.memo[2] = v_in
+                    r = child.local(0)
+                    if r is not None and (r.src or r.exact):
+                        return r
+            if name.startswith("core::num::<impl ") and name.split("::")[-1] in ("wrapping_add", "wrapping_sub", "wrapping_mul") and len(a) == 2 and pty:
+                # the wrapping operation is the plain one whenever the exact result fits the type
+                x, y = self.op(a[0]), self.op(a[1])
+                opn = {"wrapping_add": "Add", "wrapping_sub": "Sub", "wrapping_mul": "Mul"}[name.split("::")[-1]]
+                r = arith(opn, x, y, pty) if x is not None and y is not None else None
+                if r is not None and r.within(ty_range(pty)):
+                    return r
+                return top(pty)
             if name == BS + "read_bool":
                 return Iv(0, 1, frozenset(["read_bool"]))
             if name == BS + "read_bits" and len(a) > 1:
@@ -514,6 +536,7 @@ def flows_to_comparison(fn, o):
     if l in cache:
         return cache[l]
     tainted = set(value_class(fn, l))
+    own = set(tainted)          # the value itself (copies, casts), as opposed to what is computed from it
     hit = False
     for _ in range(8):
         grew = False
@@ -541,7 +564,12 @@ def flows_to_comparison(fn, o):
                 if not used:
                     continue
                 if rv[0] == "bin" and rv[1] in CMP_OPS:
-                    hit = True
+                    # a comparison with a constant is either a validation check (refine_at narrows by it when it dominates) or a
+                    # mere branch (which bounds nothing); only a relation with another value is beyond the interval domain
+                    mine, other = (rv[2], rv[3]) if (op_place(rv[2]) is not None and op_place(rv[2])[0] in tainted) else (rv[3], rv[2])
+                    direct = op_place(mine) is not None and op_place(mine)[0] in own
+                    if not (direct and op_const_int(other) is not None):
+                        hit = True
                 if st[1][0] not in tainted:
                     tainted.add(st[1][0])
                     grew = True
